@@ -973,6 +973,7 @@ fn run(cfg: &Config, s: &mut Session) {
     ppf1::run(cfg, s, &mut rng);
     split2::run(cfg, s, &mut rng);
     e2e::run(cfg, s, &mut rng);
+    split2::run_devs(cfg, s, &mut rng);
 }
 
 fn main() {
